@@ -5,6 +5,7 @@ import (
 	"fmt"
 	"os"
 	"path/filepath"
+	"sort"
 	"strings"
 
 	"git.metabarcoding.org/obitools/obitools4/obitools4/pkg/zverif/simrt"
@@ -15,7 +16,7 @@ import (
 // code between main() and the library entry points (option handling, Ropen, format
 // dispatch, CLIReadBioSequences / CLIWriteBioSequences, error reporting) is covered too.
 
-var codecExt = []string{"", ".gz", ".bz2", ".xz", ".zst"}
+var codecExt = []string{"", ".gz", ".bz2", ".xz", ".zst", ".gz"}
 
 func viewOfParsed(p parsedRec, format int) string {
 	q := ""
@@ -49,9 +50,9 @@ func c01Command(rc *RunCtx, t *simrt.Tape) {
 	viaStdin := format <= fmFastq && t.Choose(3) == 2
 	viaPipe := false
 	aligned := false
-	codec := t.Choose(5)
+	codec := t.Choose(6)
 	if viaStdin {
-		codec = t.Choose(2) // zlib handles plain and gzip
+		codec = []int{0, 1, 5}[t.Choose(3)] // zlib handles plain and gzip (several members too)
 		viaPipe = t.Choose(2) == 1
 		// the C reader refills a fixed 4 KiB buffer: put a delimiter of some record on, just
 		// before or just after a refill boundary
@@ -73,6 +74,8 @@ func c01Command(rc *RunCtx, t *simrt.Tape) {
 		spec.Knobs = map[string]int{"chunk": p.Chunk}
 	}
 	transport := "file"
+	var extra []*fileCase
+	noOrder := false
 	if viaStdin {
 		spec.Stdin = in
 		transport = "stdin-kseq"
@@ -88,6 +91,30 @@ func c01Command(rc *RunCtx, t *simrt.Tape) {
 		}
 	} else {
 		args = append(args, in)
+		// one file, or several of the same format: in command-line order, or (--no-order)
+		// read concurrently, each record still being the record of its own file
+		if t.Choose(3) == 2 {
+			nx := 1 + t.Choose(2)
+			for x := 1; x <= nx; x++ {
+				sh := fc.Shape
+				fx := genFile(simrt.PrefixTape([]int32{int32(format)}, uint64(t.Choose(1<<30))), maxRecs, false)
+				for i := range fx.Recs {
+					fx.Recs[i].ID = fmt.Sprintf("f%d%s", x, fx.Recs[i].ID)
+				}
+				renderFile(fx)
+				fn := filepath.Join(dir, fmt.Sprintf("more%d%s%s", x, ext, codecExt[codec]))
+				os.WriteFile(fn, compress(codec, fx.Text), 0644)
+				args = append(args, fn)
+				extra = append(extra, fx)
+				_ = sh
+			}
+			transport = fmt.Sprintf("%d-files", 1+nx)
+			if t.Choose(2) == 1 {
+				args = append(args, "--no-order")
+				noOrder = true
+				transport += "-no-order"
+			}
+		}
 	}
 	spec.Args = args
 	fm := fmNames[format]
@@ -116,16 +143,42 @@ func c01Command(rc *RunCtx, t *simrt.Tape) {
 			gv = append(gv, viewOfParsed(g, format))
 		}
 	}
-	for _, r := range fc.Recs {
-		if format <= fmFastq {
-			e := r
-			if !fc.Shape.hasHead() {
-				e.Annot = nil
+	for _, f := range append([]*fileCase{fc}, extra...) {
+		for _, r := range f.Recs {
+			if format <= fmFastq {
+				e := r
+				if !f.Shape.hasHead() {
+					e.Annot = nil
+				}
+				ev = append(ev, irecOf(e).canon())
+			} else {
+				ev = append(ev, viewOfRec(r))
 			}
-			ev = append(ev, irecOf(e).canon())
-		} else {
-			ev = append(ev, viewOfRec(r))
 		}
+	}
+	if noOrder {
+		// no order among the files; the records of one file still come in file order
+		start := 0
+		for fi, f := range append([]*fileCase{fc}, extra...) {
+			want := ev[start : start+len(f.Recs)]
+			start += len(f.Recs)
+			in := map[string]bool{}
+			for _, w := range want {
+				in[w] = true
+			}
+			var sub []string
+			for _, g := range gv {
+				if in[g] {
+					sub = append(sub, g)
+				}
+			}
+			if !equalStrings(sub, want) {
+				rc.Violate(class+"/records-differ", "obiconvert --no-order (%s, %s): the records of input file %d are not delivered in file order: %s", codecNames[codec], p, fi+1, firstDiff(sub, want))
+				return
+			}
+		}
+		sort.Strings(gv)
+		sort.Strings(ev)
 	}
 	if !equalStrings(gv, ev) {
 		rc.Violate(class+"/records-differ", "obiconvert (%s, %s, %s): %s\nfile: %q", codecNames[codec], transport, p, firstDiff(gv, ev), clip(string(fc.Text), 500))
@@ -191,7 +244,7 @@ func c17Command(rc *RunCtx, t *simrt.Tape) {
 	}
 	fc := genFile(simrt.PrefixTape([]int32{int32(t.Choose(2))}, uint64(t.Choose(1<<30))), n, big)
 	format := fc.Shape.Format
-	codec := 1 + t.Choose(4)
+	codec := 1 + t.Choose(5)
 	viaStdin := t.Choose(3) == 2
 	viaPipe := false
 	if viaStdin {
@@ -199,7 +252,7 @@ func c17Command(rc *RunCtx, t *simrt.Tape) {
 		// damaged image must still be refused, whatever zlib makes of its first bytes
 		viaPipe = t.Choose(2) == 1
 		if !viaPipe || codec == 4 {
-			codec = 1
+			codec = []int{1, 5}[t.Choose(2)]
 		}
 	}
 	image := compress(codec, fc.Text)
@@ -217,6 +270,11 @@ func c17Command(rc *RunCtx, t *simrt.Tape) {
 	bit := t.Choose(8)
 	data := append([]byte(nil), image...)
 	if kind == fkTruncate {
+		if codec == 5 && memberBoundary(fc.Text, k) {
+			rc.Probe("cut_between_gzip_members_is_a_valid_file")
+			rc.Out.Key = fmt.Sprintf("cmd/member-boundary/%d/%d", N, k)
+			return
+		}
 		data = data[:k]
 	} else {
 		if k >= N {
@@ -318,11 +376,16 @@ func c17Command(rc *RunCtx, t *simrt.Tape) {
 	}
 	complete := len(got) == len(fc.Recs)
 	if complete {
+		// several input files (and --no-order) only promise the records, not their rank
+		gv, ev := make([]string, len(got)), make([]string, len(got))
 		for i := range got {
-			if viewOfParsed(got[i], format) != viewOfRec(fc.Recs[i]) {
-				complete = false
-			}
+			gv[i], ev[i] = viewOfParsed(got[i], format), viewOfRec(fc.Recs[i])
 		}
+		if strings.Contains(transport, "-among-") {
+			sort.Strings(gv)
+			sort.Strings(ev)
+		}
+		complete = equalStrings(gv, ev)
 	}
 	if kind == fkFlip && complete {
 		rc.Probe("flip_immaterial")
